@@ -1,7 +1,7 @@
 (* C02 -- message reassembly is independent of how the byte stream is chunked. *)
 From Coq Require Import ZArith NArith List.
 From Coq.Strings Require Import Byte.
-From SV Require Import Base.Bytes Base.Py Msg.Types Msg.Decode Sess.Model Sess.Chunk.
+From SV Require Import Gen.Sharing Base.Bytes Base.Py Msg.Types Msg.Decode Sess.Model Sess.Chunk.
 Import ListNotations.
 
 (* For ANY byte stream whose delivery in one piece succeeds, from any open state (client or server,
@@ -34,7 +34,15 @@ Theorem C02_decoding_ignores_what_follows :
   forall d r x m r', unpack_message d r = Ok (m, r') -> unpack_message d (r ++ x) = Ok (m, r' ++ x).
 Proof. exact unpack_message_prefix. Qed.
 
+(* The theorems above are about functions and values; that _session.py (everything a session mutates is reached from the session object) keeps no state
+   between calls and shares none between objects is read off the source by tools/audit.py on every run
+   (Gen/Sharing.v): no memoisation, no module- or class-level container that is written, no mutable default, no
+   attribute written behind a dataclass, no parameter stored without a copy. *)
+Theorem C02_audit_no_state_between_calls : (hidden_state_session = [])%list.
+Proof. exact eq_refl. Qed.
+
 Print Assumptions C02_chunking_is_unobservable.
 Print Assumptions C02_two_chunks.
 Print Assumptions C02_both_receive_paths_agree.
 Print Assumptions C02_decoding_ignores_what_follows.
+Print Assumptions C02_audit_no_state_between_calls.
